@@ -6,6 +6,7 @@ package main
 
 import (
 	"fmt"
+	"github.com/6tail/lunar-go/LunarUtil"
 
 	"github.com/6tail/lunar-go/calendar"
 	"lunarmon/ref"
@@ -170,6 +171,12 @@ func c05Moment(w *W, st ref.Stamp, class string) {
 	idx("dayExact", l.GetDayGanIndexExact(), l.GetDayZhiIndexExact(), l.GetDayGanExact(), l.GetDayZhiExact(), rp.day[1])
 	idx("dayExact2", l.GetDayGanIndexExact2(), l.GetDayZhiIndexExact2(), l.GetDayGanExact2(), l.GetDayZhiExact2(), rp.day[2])
 	idx("time", l.GetTimeGanIndex(), l.GetTimeZhiIndex(), l.GetTimeGan(), l.GetTimeZhi(), rp.hour)
+	// the exported slot helpers asked directly with the clock string (with and without seconds)
+	hm := fmt.Sprintf("%02d:%02d", st.H, st.Mi)
+	if zi := ((st.H + 1) / 2) % 12; LunarUtil.GetTimeZhiIndex(hm) != zi || LunarUtil.ConvertTime(hm) != ref.Branches[zi] || LunarUtil.GetTimeZhiIndex(hm+fmt.Sprintf(":%02d", st.S)) != zi {
+		w.Violatef("hour-branch", key+"/util", "LunarUtil.GetTimeZhiIndex(%q)=%d ConvertTime=%s, the two-hour slot is %s", hm, LunarUtil.GetTimeZhiIndex(hm), LunarUtil.ConvertTime(hm), ref.Branches[zi])
+	}
+	w.Eval(1)
 	// the same moment built from the lunar side must carry the same pillars (leap months, months 11-12-1 and Jie days always)
 	if lm := l.GetMonth(); lm < 0 || lm >= 11 || lm == 1 || rp.nearJie || rp.lead {
 		var l2 *calendar.Lunar
